@@ -152,6 +152,16 @@ def run(ctx, F):
         ctx.judge(bool(g) and len(guards(sp, c.bb)) == 1, "C16.spawn-each-once", "no worker of the vector is skipped", expected="spawn guarded only by the iterator yielding an item",
                   found=str(guard_strs(sp, c.bb)), where=where(sp, c.line), key="C16.spawn-each-once|guard")
 
+    # ---- C16.parked-count: an exiting worker un-parks itself too, otherwise the respawned workers never reach "all parked" again
+    pw = F.fn("scheduler::worker_monitor::WorkerMonitor::park_and_wait")
+    inc = live_calls(pw, name="inc_parked_workers")
+    dec = live_calls(pw, name="dec_parked_workers")
+    mn, mx = pw.cfg.path_counts([c.bb for c in dec])
+    errs = [(b, t, g) for b, t, g in ret_table(pw) if "Err" in show(t)]
+    okd = len(inc) == 1 and (mn, mx) == (1, 1) and bool(errs) and all(any(pw.cfg.dominates(c.bb, b) for c in dec) for b, t, g in errs)
+    ctx.judge(okd, "C16.parked-count", "a worker leaving park_and_wait (also to exit) decrements the parked count exactly once", expected="dec_parked_workers on every path, before the Err(WorkerShouldExit) return",
+              found="inc=%d dec-per-path=(%s,%s) err-rows=%d" % (len(inc), mn, mx, len(errs)), where=where(pw), key="C16.parked-count|paired")
+
     # ---- C16.priority
     goal = F.enum_variants("scheduler::worker_goals::WorkerGoal")
     ctx.require(goal, "C16.priority: WorkerGoal enum missing")
